@@ -912,8 +912,6 @@ func (ro *RedisOutput) sendCmdsBatch(replayWait usync.WaitCloser, conn client.Re
 	updateCpTicker := time.NewTicker(cpTicker)
 	defer updateCpTicker.Stop()
 
-	cpInDbs := make(map[int]struct{})
-
 	// transaction : call sendFunc when command is "exec", never break down a transaction
 	// non-transaction : call sendFunc when queue is full or ticker is delivered
 
@@ -999,14 +997,11 @@ func (ro *RedisOutput) sendCmdsBatch(replayWait usync.WaitCloser, conn client.Re
 
 		if shouldUpdateCP {
 			if ro.cfg.EnableResumeFromBreakPoint {
-				if len(cmdQueue) > 0 {
-					lastCmd := cmdQueue[len(cmdQueue)-1]
-					if _, ok := cpInDbs[lastCmd.Db]; !ok {
-						cpInDbs[lastCmd.Db] = struct{}{}
-						batcher.Put("hset", checkpointKv.Key, checkpointKv.RunIdKey(), runId, checkpointKv.VersionKey(), config.Version)
-					}
-				}
-				batcher.Put("hset", checkpointKv.Key, checkpointKv.OffsetKey(), lastOffset)
+				// an offset without its run id is not a usable checkpoint (the next start ignores it and
+				// falls back to a full sync), and which database this batch ends in cannot be told from
+				// the queue alone (empty queue, keep-alive ping): always store them together.
+				batcher.Put("hset", checkpointKv.Key, checkpointKv.RunIdKey(), runId, checkpointKv.VersionKey(), config.Version,
+					checkpointKv.OffsetKey(), lastOffset)
 			} else {
 				ro.cpGuard.Lock()
 				ro.checkpointInMem.Offset = lastOffset
